@@ -8,10 +8,12 @@ pub mod c06;
 pub mod c07;
 pub mod c08;
 pub mod c09;
+pub mod c10;
 pub mod c13;
 pub mod c15;
 pub mod c16;
 pub mod c17;
+pub mod c19;
 
 pub type RunFn = fn(&Ctx);
 
@@ -24,8 +26,10 @@ pub const ALL: &[(&str, RunFn)] = &[
     ("C07", c07::run),
     ("C08", c08::run),
     ("C09", c09::run),
+    ("C10", c10::run),
     ("C13", c13::run),
     ("C15", c15::run),
     ("C16", c16::run),
     ("C17", c17::run),
+    ("C19", c19::run),
 ];
